@@ -9,12 +9,15 @@ def T(*fs): return {"k": "tup", "name": "", "fs": list(fs)}
 def c(v): return {"e": "c", "v": v}
 def r(n): return {"e": "r", "r": n}
 def t(*es): return {"e": "t", "fs": list(es)}
+def hb(*bs): return {"e": "hb", "b": list(bs)}       # a binary built at run time (lives on the executor heap)
+def B(*bs): return {"k": "bin", "b": list(bs)}
 
 def spawn(dst, script, *args): return {"op": "spawn", "dst": dst, "script": script, "args": list(args)}
 def send(to, val): return {"op": "send", "to": to, "val": val}
 def select(dst, *srcs): return {"op": "select", "dst": dst, "srcs": list(srcs)}
 def fail(e="InvalidArgument:Division by zero"): return {"op": "fail", "e": e}
 def ret(val): return {"op": "ret", "val": val}
+def let(dst, val): return {"op": "let", "dst": dst, "val": val}
 
 def aw(reg): return {"k": "await", "reg": reg}
 def recv(tys=("int",), acc=None, body="pure"):
@@ -31,7 +34,7 @@ def scenario(name, scripts, nw=2, maxtick=0, maxfuel=3, placement="mod", defects
 # ---------------------------------------------------------------------------
 # Rendering to Quiver source
 # ---------------------------------------------------------------------------
-TYNAMES = {"int": "'int", "bin": "'bin", "tup": "['int, 'int]"}
+TYNAMES = {"int": "'int", "bin": "'bin", "tup": "['int, 'int]", "btup": "['bin, 'bin]"}
 
 def q_val(v):
     k = v["k"]
@@ -46,6 +49,10 @@ def q_expr(e, sid):
     if e["e"] == "c": return q_val(e["v"])
     if e["e"] == "r": return "&s%dr%d" % (sid, e["r"])
     if e["e"] == "t": return "[" + ", ".join(q_expr(f, sid) for f in e["fs"]) + "]"
+    if e["e"] == "hb":
+        h = max(1, len(e["b"]) // 2)
+        return "[0x%s, 0x%s] __binary_concat__" % ("".join("%02x" % b for b in e["b"][:h]),
+                                                   "".join("%02x" % b for b in e["b"][h:]))
     raise ValueError(e)
 
 class Renderer:
@@ -85,6 +92,8 @@ class Renderer:
                 steps.append("s%dr%d = ! [%s]" % (sid, op["dst"], ", ".join(self.src(s, sid) for s in op["srcs"])))
             elif o == "fail":
                 steps.append("[1, 0] __integer_divide__")
+            elif o == "let":
+                steps.append("s%dr%d = %s" % (sid, op["dst"], q_expr(op["val"], sid)))
             elif o == "ret":
                 steps.append(q_expr(op["val"], sid))
             else:
